@@ -187,3 +187,37 @@ def recorded(est):
     if isinstance(est, Rec):
         return {"kind": "rec", "y": est.y_, "w": est.w_}
     return {"kind": "dummy", "constant": float(getattr(est, "constant"))}
+
+
+# ---------------------------------------------------------------------------------------------
+# decoy load: the SAME moment / objective object is first loaded with other data of the same shape
+# (labels flipped or reversed, groups rotated), exercised, and only then loaded with the case's data.
+# load_data must replace every piece of loaded state, so all observables must be those of a single load.
+# ---------------------------------------------------------------------------------------------
+def preload_flag(case):
+    import hashlib, json
+    d = {k: v for k, v in case.items() if not str(k).startswith("_")}
+    return int(hashlib.sha1(json.dumps(d, sort_keys=True, default=str).encode()).hexdigest(), 16) % 2 == 0
+
+
+def decoy_load(m, X, y, kw):
+    import numpy as np, pandas as pd
+    ya = np.asarray(y)
+    y2 = (1 - ya) if set(np.unique(ya).tolist()) <= {0, 1} else ya[::-1].copy()
+    kw2 = {}
+    for k, v in kw.items():
+        lv = list(v)
+        kw2[k] = lv[1:] + lv[:1]
+    try:
+        m.load_data(X, pd.Series(y2), **kw2)
+    except Exception:
+        return False
+    n = len(ya)
+    for call in (lambda: m.gamma(lambda X_: np.ones(n)), lambda: m.signed_weights(),
+                 lambda: m.signed_weights(pd.Series(1.0, index=m.index)), lambda: m.bound(),
+                 lambda: m.project_lambda(pd.Series(1.0, index=m.index))):
+        try:
+            call()
+        except Exception:
+            pass
+    return True
